@@ -2,6 +2,7 @@ package rules
 
 import (
 	"go/types"
+	"sort"
 	"strings"
 
 	"golang.org/x/tools/go/ssa"
@@ -45,6 +46,45 @@ func sigKey(fn *ssa.Function) string {
 	return strings.ReplaceAll(s, "any", "interface{}")
 }
 
+// looseKey ignores whether the tree / node is the receiver or an ordinary
+// parameter and in which order parameters come: the multiset of parameter types
+// (receiver included) plus the results.
+func looseKey(k string) string {
+	parts := strings.SplitN(k, "|", 3)
+	if len(parts) != 3 {
+		return k
+	}
+	var ps []string
+	if parts[0] != "" {
+		ps = append(ps, parts[0])
+	}
+	if parts[1] != "" {
+		ps = append(ps, splitTop(parts[1])...)
+	}
+	sort.Strings(ps)
+	return strings.Join(ps, ",") + "|" + parts[2]
+}
+
+// splitTop splits a comma-separated type list, not inside brackets/parens.
+func splitTop(s string) []string {
+	var out []string
+	depth, start := 0, 0
+	for i, r := range s {
+		switch r {
+		case '(', '[', '{':
+			depth++
+		case ')', ']', '}':
+			depth--
+		case ',':
+			if depth == 0 {
+				out = append(out, s[start:i])
+				start = i + 1
+			}
+		}
+	}
+	return append(out, s[start:])
+}
+
 // roleFunc finds the unique unexported function of package mast with the
 // signature recorded for the role `name`.
 func roleFunc(P *ir.Program, name string) *ssa.Function {
@@ -60,6 +100,21 @@ func roleFunc(P *ir.Program, name string) *ssa.Function {
 		if sigKey(fn) == want {
 			if found != nil {
 				return nil // ambiguous
+			}
+			found = fn
+		}
+	}
+	if found != nil {
+		return found
+	}
+	// function ↔ method, reordered parameters
+	for _, fn := range P.Funcs {
+		if fn.Parent() != nil || fn.Pkg.Pkg.Path() != ir.MastPath || fn.Object() == nil || fn.Object().Exported() {
+			continue
+		}
+		if looseKey(sigKey(fn)) == looseKey(want) {
+			if found != nil {
+				return nil
 			}
 			found = fn
 		}
